@@ -117,7 +117,7 @@ def string_copy(ctx, args, st):
     return ret(st, str_of(st, args[0]).retag('String'))
 
 
-@model(r'^<String as (?:Deref|AsRef<str>|Borrow<str>)>::(deref|as_ref|borrow)$|^String::(as_str|as_mut_str)$|^<str as AsRef<str>>::as_ref$|^<&str as AsRef<str>>::as_ref$|^<Box<str> as Deref>::deref$|^<Cow<\'_, str> as Deref>::deref$')
+@model(r'^<String as (?:Deref|AsRef<str>|Borrow<str>)>::(deref|as_ref|borrow)$|^String::(as_str|as_mut_str)$|^<str as AsRef<str>>::as_ref$|^<&str as AsRef<str>>::as_ref$|^<Box<str> as Deref>::deref$|^<Cow<\'_, str> as (?:Deref|AsRef<str>|Borrow<str>)>::(deref|as_ref|borrow)$')
 def string_deref(ctx, args, st):
     if 'mut' in ctx.callee.rsplit('::', 1)[-1]:
         return ret(st, str_ref(st, args[0]))
